@@ -100,6 +100,21 @@ func cmdDebug(args []string) int {
 			}
 		}
 		gp.verifyClosures(r, only)
+	} else if args[0] == "C10" {
+		// debug C10: the whole property (builder contracts, escape table, stack discipline of peg.peg)
+		if err := runC10(r); err != nil {
+			fmt.Println("C10:", err)
+			return 2
+		}
+	} else if args[0] == "pegpeg" {
+		// debug pegpeg: only the checks on the text / rule tree of peg.peg
+		u, _, err := loadTreeUnit()
+		if err != nil {
+			fmt.Println("load:", err)
+			return 2
+		}
+		r.Obls = append(r.Obls, escapeTable(repoDir+"/peg.peg")...)
+		r.Obls = append(r.Obls, stackDiscipline(u)...)
 	} else {
 		u, keys, err := loadNamedUnit(args[0])
 		if err != nil {
@@ -254,8 +269,31 @@ func loadTreeUnit() (*Unit, []string, error) {
 			return nil, nil, fmt.Errorf("tree unit: the body of %s is not the one the range-over-func model was written for:\n got  %s\n want %s", k, got, w)
 		}
 	}
+	// ASSUMED library contracts used by the tree builder (property C10); lower/upper/digits/numval/intMax: tree/contracts_verif.go
+	//   strconv.ParseInt(s, base, bitSize): by its documentation, for a plain digit string: the value, or, when the value does
+	//   not fit a signed integer of bitSize bits, the largest such integer and a non-nil error
+	u.TrustedExt["strconv.ParseInt"] = &ExtSpec{Key: "strconv.ParseInt", Params: []string{"s", "base", "bitSize"}, Contract: mkContract("strconv.ParseInt",
+		"requires 2 <= base && base <= 36 && (bitSize == 8 || bitSize == 16 || bitSize == 32 || bitSize == 64)",
+		"ensures 0 - intMax(bitSize) - 1 <= result0 && result0 <= intMax(bitSize)",
+		"ensures digits(s, base) ==> numval(s, base) >= 0",
+		"ensures digits(s, base) && numval(s, base) <= intMax(bitSize) ==> result0 == numval(s, base) && result1 == nil",
+		"ensures digits(s, base) && numval(s, base) > intMax(bitSize) ==> result0 == intMax(bitSize) && result1 != nil")}
+	//   strings.ToLower / ToUpper: the Unicode mappings named lower / upper; on a single ASCII letter: the letter of the other
+	//   case (code point +-32), or the letter itself
+	u.TrustedExt["strings.ToLower"] = &ExtSpec{Key: "strings.ToLower", Params: []string{"s"}, Contract: mkContract("strings.ToLower",
+		"ensures result == lower(s)",
+		"ensures upperLetter(s) ==> result == strOfRune(runeAt(s, 0) + 32)",
+		"ensures lowerLetter(s) ==> result == s")}
+	u.TrustedExt["strings.ToUpper"] = &ExtSpec{Key: "strings.ToUpper", Params: []string{"s"}, Contract: mkContract("strings.ToUpper",
+		"ensures result == upper(s)",
+		"ensures lowerLetter(s) ==> result == strOfRune(runeAt(s, 0) - 32)",
+		"ensures upperLetter(s) ==> result == s")}
+	//   strconv.Quote(s): the Go-syntax double-quoted form of s, named quoted(s); it starts and ends with a quote character
+	u.TrustedExt["strconv.Quote"] = &ExtSpec{Key: "strconv.Quote", Params: []string{"s"}, Contract: mkContract("strconv.Quote",
+		"ensures result == quoted(s) && len(result) >= 2")}
 	keys := []string{"Type.GetType", "node.String", "node.GetID", "node.Init", "node.Front", "node.Next", "node.Len", "node.PushFront", "node.PopFront", "node.PushBack",
 		"Tree.warn", "Tree.checkRecursion", "Tree.countRules", "node.CheckAlwaysSucceeds", "node.checkAlwaysSucceedsRecursion", "verifLast"}
+	keys = append(keys, builderKeys...)
 	for _, k := range sortedKeys(u.CS.Funcs) {
 		if u.CS.Funcs[k].Lemma {
 			keys = append(keys, k)
@@ -263,3 +301,10 @@ func loadTreeUnit() (*Unit, []string, error) {
 	}
 	return u, keys, nil
 }
+
+// builderKeys: the tree builder called by the actions of peg.peg (property C10; contracts in tree/contracts_verif.go)
+var builderKeys = []string{"Tree.AddRule", "Tree.AddExpression", "Tree.AddName", "Tree.AddDot", "Tree.AddCharacter", "Tree.AddDoubleCharacter",
+	"Tree.AddHexaCharacter", "Tree.AddOctalCharacter", "Tree.AddPredicate", "Tree.AddStateChange", "Tree.AddNil", "Tree.AddAction", "Tree.AddPackage",
+	"Tree.AddSpace", "Tree.AddComment", "Tree.AddImport", "Tree.AddImportAlias", "Tree.AddState", "Tree.addList", "Tree.AddAlternate", "Tree.AddSequence",
+	"Tree.AddRange", "Tree.AddDoubleRange", "Tree.addFix", "Tree.AddPeekFor", "Tree.AddPeekNot", "Tree.AddQuery", "Tree.AddStar", "Tree.AddPlus",
+	"Tree.AddPush", "Tree.AddPeg", "verifNegatedClass", "verifTrailingSlash", "escape", "node.Escaped", "New"}
